@@ -81,31 +81,56 @@ def _kind(sp):
     """the type the property assigns to a branch of a case"""
     if sp["k"] == "nest":
         ks = set(KIND[i["k"]] for i in sp["inner"])
-        return "fill_compute" if ks == {"fill_compute"} else "fill_request"
+        return "fill_compute" if ks == {"fill_compute"} else "fill_request" if ks == {"fill_request"} else "sequence"
     return KIND[sp["k"]]
 
 
 # ----------------------------------------------------------------------------------------
 # instrumented branch elements (the harness vocabulary; Lean: `BSpec.ops`)
 
+def _boom_iter(res, boom):
+    """iterator over `res` that raises ValueError once `boom` values were yielded (if there are that many)"""
+    if boom is None or boom > len(res):
+        return iter(res)
+
+    def gen():
+        for j, v in enumerate(res):
+            if j == boom:
+                raise ValueError("boom")
+            yield v
+        raise ValueError("boom")
+    return gen()
+
+
 class SrcEl(object):
-    def __init__(self, tag, k, log):
+    def __init__(self, tag, k, log, boom_gen=None):
         self.tag, self.k, self.log, self.calls = tag, k, log, 0
+        self.boom_gen = boom_gen
 
     def __call__(self):
         self.log.append((self.tag, ["call"]))
         c = self.calls
         self.calls += 1
-        return iter([(self.tag, "src", c, j) for j in range(self.k)])
+        return _boom_iter([(self.tag, "src", c, j) for j in range(self.k)], self.boom_gen)
+
+    def state(self):
+        return {"v": [], "n": 0, "calls": self.calls, "total": 0}
 
 
 class _Filler(object):
-    def __init__(self, tag, stop, late, log):
+    def __init__(self, tag, stop, late, log, boom_fill=None, boom_gen=None):
         self.tag, self.stop, self.late, self.log = tag, stop, late, log
         self.v, self.n, self.calls = [], 0, 0
+        self.boom_fill, self.boom_gen = boom_fill, boom_gen
+
+    def state(self):
+        return {"v": list(self.v), "n": self.n, "calls": self.calls, "total": 0}
 
     def fill(self, x):
         import lena.core
+        if self.boom_fill is not None and self.n >= self.boom_fill:
+            self.log.append((self.tag, ["fill", x, False]))
+            raise ValueError("boom")
         if self.stop is not None and self.n >= self.stop:
             if self.late:
                 self.v.append(x)
@@ -117,8 +142,8 @@ class _Filler(object):
 
 
 class FC(_Filler):
-    def __init__(self, tag, stop, late, items, log):
-        _Filler.__init__(self, tag, stop, late, log)
+    def __init__(self, tag, stop, late, items, log, boom_fill=None, boom_gen=None):
+        _Filler.__init__(self, tag, stop, late, log, boom_fill, boom_gen)
         self.items = items
 
     def compute(self):
@@ -128,7 +153,7 @@ class FC(_Filler):
         res = [(self.tag, "compute", c, tuple(self.v))]
         if self.items:
             res += [(self.tag, "item", x) for x in self.v]
-        return iter(res)
+        return _boom_iter(res, self.boom_gen)
 
 
 class FR(_Filler):
@@ -138,13 +163,17 @@ class FR(_Filler):
         self.calls += 1
         res = [(self.tag, "request", c, tuple(self.v))]
         self.v = []
-        return iter(res)
+        return _boom_iter(res, self.boom_gen)
 
 
 class SQ(object):
-    def __init__(self, tag, variant, log):
+    def __init__(self, tag, variant, log, boom_gen=None):
         self.tag, self.variant, self.log = tag, variant, log
-        self.calls, self.n = 0, 0
+        self.calls, self.n, self.v = 0, 0, []
+        self.boom_gen = boom_gen
+
+    def state(self):
+        return {"v": list(self.v), "n": self.n, "calls": self.calls, "total": 0}
 
     def run(self, flow):
         buf = list(flow)
@@ -167,9 +196,15 @@ class SQ(object):
             for x in buf:
                 res.append((t, "idx", self.n, x))
                 self.n += 1
+        elif v == "cache":
+            # like lena.flow.Cache: the first run stores what it receives, later runs replay it
+            if self.calls == 0:
+                self.v = list(buf)
+            res = [(t, "c", x) for x in self.v]
+            self.calls += 1
         else:
             raise ValueError(v)
-        return iter(res)
+        return _boom_iter(res, self.boom_gen)
 
 
 def _mk_sum(tag, log):
@@ -183,22 +218,26 @@ def _mk_sum(tag, log):
         def compute(self):
             log.append((tag, ["compute"]))
             return lena.math.Sum.compute(self)
+
+        def state(self):
+            return {"v": [], "n": 0, "calls": 0, "total": self._total}
     return LSum()
 
 
 def _mk_el(sp, tag, log):
     """the element object of a branch (before it is wrapped into the form given to Split)"""
     k = sp["k"]
+    bf, bg = sp.get("boom_fill"), sp.get("boom_gen")
     if k == "src":
-        return SrcEl(tag, sp["n"], log)
+        return SrcEl(tag, sp["n"], log, bg)
     if k == "fc":
-        return FC(tag, sp["stop"], sp["late"], sp["items"], log)
+        return FC(tag, sp["stop"], sp["late"], sp["items"], log, bf, bg)
     if k == "fr":
-        return FR(tag, sp["stop"], sp["late"], log)
+        return FR(tag, sp["stop"], sp["late"], log, bf, bg)
     if k == "sq":
         if sp["v"] == "lam":
             return lambda x, tag=tag: (tag, "lam", x)
-        return SQ(tag, sp["v"], log)
+        return SQ(tag, sp["v"], log, bg)
     if k == "sum":
         return _mk_sum(tag, log)
     if k == "nest":
@@ -211,24 +250,37 @@ def _mk_nest(sp, tag, log):
     their own tags; the calls the enclosing Split makes on the nested Split are logged under `tag`"""
     import lena.core as lc
     base = 100 * (tag + 1)
-    inner = [_wrap(isp, _mk_el(isp, base + j, log)) for j, isp in enumerate(sp["inner"])]
+    inner_els = [_mk_el(isp, base + j, log) for j, isp in enumerate(sp["inner"])]
+    inner = [_wrap(isp, el) for isp, el in zip(sp["inner"], inner_els)]
     ns = lc.Split(inner, bufsize=sp.get("bufsize", 1000))
-    orig_fill = ns.fill
+    ns.harness_inner = inner_els
+    ns.state = lambda: {"inner": [el.state() for el in inner_els]}
+    if hasattr(ns, "fill"):
+        orig_fill = ns.fill
 
-    def fill(x):
-        try:
-            orig_fill(x)
-        except lc.LenaStopFill:
-            log.append((tag, ["fill", x, True]))
-            raise
-        log.append((tag, ["fill", x, False]))
-    ns.fill = fill
-    for name in ("compute", "request"):
-        if hasattr(ns, name):
-            def gen(orig=getattr(ns, name), name=name):
-                log.append((tag, [name]))
-                return orig()
-            setattr(ns, name, gen)
+        def fill(x):
+            try:
+                orig_fill(x)
+            except lc.LenaStopFill:
+                log.append((tag, ["fill", x, True]))
+                raise
+            log.append((tag, ["fill", x, False]))
+        ns.fill = fill
+        for name in ("compute", "request"):
+            if hasattr(ns, name):
+                def gen(orig=getattr(ns, name), name=name):
+                    log.append((tag, [name]))
+                    return orig()
+                setattr(ns, name, gen)
+    else:
+        # no common fill type: the enclosing Split runs it as a plain Sequence, once per block
+        orig_run = ns.run
+
+        def run(flow):
+            buf = list(flow)
+            log.append((tag, ["run", list(buf)]))
+            return orig_run(iter(buf))
+        ns.run = run
     return ns
 
 
@@ -313,15 +365,25 @@ def ref_run(specs, bufsize, flow):
     block the compute() results of the fill/compute branches in branch order; a branch that
     signals LenaStopFill is finalised and dropped; on an empty flow every branch is invoked
     exactly once.  Returns (outputs, per-branch invocation logs)."""
-    import lena.core
     if not specs:
         return list(flow), []
     log = []
     els = [_mk_el(sp, i, log) for i, sp in enumerate(specs)]
+    out = []
+    _ref_schedule(specs, els, bufsize, flow, out)
+    return out, _inv(log, len(specs))
+
+
+def _ref_schedule(specs, els, bufsize, flow, out):
+    """the documented schedule on the given element objects; appends to `out` as it goes, so that what was
+    yielded before an exception of an element is kept (the exception propagates)"""
+    import lena.core
+    if not specs:
+        out.extend(flow)
+        return
     kinds = [_kind(sp) for sp in specs]
     lam = [sp["k"] == "sq" and sp.get("v") == "lam" for sp in specs]
     active = [True] * len(specs)
-    out = []
     blocks = _blocks(flow, bufsize)
 
     # documented conversion of a tuple: the flow is preprocessed by what stands before the element, the
@@ -337,47 +399,49 @@ def ref_run(specs, bufsize, flow):
                 return True
         return False
 
-    def results(i, gen):
-        return [post[i](v) for v in gen]
+    def emit(i, gen, use_post=True):
+        # value by value: what was yielded before an exception of the generator stays yielded
+        for v in gen:
+            out.append(post[i](v) if use_post else v)
 
     def run_seq(i, blk):
         blk = [pre[i](x) for x in blk]
         if lam[i]:
-            return results(i, [els[i](x) for x in blk])
-        return results(i, els[i].run(iter(blk)))
+            emit(i, (els[i](x) for x in blk))
+        else:
+            emit(i, els[i].run(iter(blk)))
 
     for blk in blocks:
         for i, el in enumerate(els):
             if not active[i]:
                 continue
             if kinds[i] == "source":
-                out += list(el())
+                emit(i, el(), use_post=False)
                 active[i] = False
             elif kinds[i] == "fill_compute":
                 if fill_block(i, blk):
-                    out += results(i, el.compute())
+                    emit(i, el.compute())
                     active[i] = False
             elif kinds[i] == "fill_request":
                 stopped = fill_block(i, blk)
-                out += results(i, el.request())
+                emit(i, el.request())
                 if stopped:
                     active[i] = False
             else:
-                out += run_seq(i, blk)
+                run_seq(i, blk)
     for i, el in enumerate(els):
         if not active[i]:
             continue
         if kinds[i] == "source":
-            out += list(el())
+            emit(i, el(), use_post=False)
         elif kinds[i] == "fill_compute":
-            out += results(i, el.compute())
+            emit(i, el.compute())
         elif kinds[i] == "fill_request":
             if not blocks:
-                out += results(i, el.request())
+                emit(i, el.request())
         else:
             if not blocks:
-                out += run_seq(i, [])
-    return out, _inv(log, len(specs))
+                run_seq(i, [])
 
 
 # ----------------------------------------------------------------------------------------
@@ -397,22 +461,20 @@ def _base_alphabet(n):
 
 
 def _exhaustive_runs(max_len_by_n):
-    cases = []
     for n, m in sorted(max_len_by_n.items()):
         al = _base_alphabet(n)
         flow = list(range(1, n + 1))
         for l in range(0, m + 1):
             for brs in itertools.product(al, repeat=l):
                 for cb in (True, False):
-                    cases.append({"op": "run", "brs": [dict(b) for b in brs], "flow": flow,
-                                  "bufsizes": _bufsizes(n), "copy_buf": cb})
-    return cases
+                    yield {"op": "run", "brs": [dict(b) for b in brs], "flow": flow,
+                           "bufsizes": _bufsizes(n), "copy_buf": cb}
 
 
 _TUPLE_FORMS = ["tuple", "tuple_pre", "tuple_post", "tuple_pp"]
 FORMS = {"src": ["el"], "fc": ["el", "seq", "tuple_id"] + _TUPLE_FORMS, "fr": ["el", "seq", "tuple_id"] + _TUPLE_FORMS,
          "sq": ["el", "seq"] + _TUPLE_FORMS, "sum": ["el", "seq", "tuple_id"] + _TUPLE_FORMS}
-SQ_VARIANTS = ["map", "mapEnd", "even", "sumBlock", "dup", "running", "lam"]
+SQ_VARIANTS = ["map", "mapEnd", "even", "sumBlock", "dup", "running", "lam", "cache"]
 
 
 def _rand_spec(rng, n, kinds=("src", "fc", "fr", "sq", "sum"), pp=True):
@@ -489,7 +551,8 @@ def _rand_methods(rng, maxbr, maxn):
         kinds = ("src",)
     else:
         kinds = ("src", "fc", "fr", "sq", "sum")
-    return {"op": "methods", "brs": [_rand_spec(rng, n, kinds, pp=False) for _ in range(l)], "blocks": blocks}
+    return {"op": "methods", "brs": [_rand_spec(rng, n, kinds, pp=False) for _ in range(l)], "blocks": blocks,
+            "copy_buf": rng.random() < 0.5}
 
 
 def _rand_zip(rng, maxbr, maxn):
@@ -571,27 +634,51 @@ def _init_cases(rng, tier):
     return cases
 
 
+def _roundrobin(gens):
+    """interleave generators (so that any prefix of the stream is a mix of all kinds of cases)"""
+    gens = [iter(g) for g in gens]
+    while gens:
+        alive = []
+        for g in gens:
+            try:
+                yield next(g)
+            except StopIteration:
+                continue
+            alive.append(g)
+        gens = alive
+
+
+def _repeat(n, fn, *a):
+    for _ in range(n):
+        yield fn(*a)
+
+
 def gen_cases(ctx):
-    rng = ctx.rng
+    """a lazy stream (harness/common.py samples a prefix of the thorough stream when the anchored code changed)"""
+    import random
     if ctx.tier == "quick":
-        cases = _exhaustive_runs({0: 3, 1: 3, 2: 3, 3: 2, 4: 2})
+        exh = {0: 3, 1: 3, 2: 3, 3: 2, 4: 2}
         n_run, n_meth, n_zip = 900, 500, 400
         maxbr, maxn = 4, 8
     else:
         # the property's quantifier for N = 4: every branch list of length 0..4 over the four kinds, every
         # bufsize, both copy_buf, every stop index (lists of length 4 on flows of length 0..3; 0..3 on length 4)
-        cases = _exhaustive_runs({0: 4, 1: 4, 2: 4, 3: 4, 4: 3})
+        exh = {0: 4, 1: 4, 2: 4, 3: 4, 4: 3}
         n_run, n_meth, n_zip = 30000, 8000, 6000
         maxbr, maxn = 5, 8
-    for _ in range(n_run):
-        cases.append(_rand_run(rng, maxbr, maxn))
-    for _ in range(n_meth):
-        cases.append(_rand_methods(rng, 4, 7))
-    for _ in range(n_zip):
-        cases.append(_rand_zip(rng, 4, 7))
-    cases.extend(_init_cases(rng, ctx.tier))
     ctx.exhaustive = False  # the random part is sampled
-    return cases
+
+    def sub():
+        # independent streams, all derived from ctx.rng
+        return random.Random(ctx.rng.getrandbits(64))
+    streams = [
+        _exhaustive_runs(exh),
+        _repeat(n_run, _rand_run, sub(), maxbr, maxn),
+        _repeat(n_meth, _rand_methods, sub(), 4, 7),
+        _repeat(n_zip, _rand_zip, sub(), 4, 7),
+        _init_cases(sub(), ctx.tier),
+    ]
+    return _roundrobin(streams)
 
 
 # ----------------------------------------------------------------------------------------
@@ -622,7 +709,7 @@ def _methods_impl(case):
 
     def build():
         log = []
-        return lena.core.Split(_build(specs, log), bufsize=None), log
+        return lena.core.Split(_build(specs, log), bufsize=None, copy_buf=case.get("copy_buf", True)), log
 
     try:
         s, _ = build()
